@@ -189,7 +189,7 @@ M("m-of-isany-swap", MU_, """                if marker.is_any():
                     continue""", fire=["C02", "C15"])  # C02 through the polarity rule R02.3
 M("m-of-return-any", UN, """                        if new_marker.is_any():
                             return AnyMarker()""", """                        if new_marker.is_any():
-                            return EmptyMarker()""", fire=["C02", "C15"])
+                            return EmptyMarker()""", fire=["C02"])   # a soundness defect; C15's syntactic polarity rule is advisory since neutral round 3
 M("m-of-single-exit", MU_, """        if len(new_markers) == 1:
             return new_markers[0]
 
@@ -214,7 +214,7 @@ M("m-flatten-class", MU_, """object.__setattr__(self, "markers", tuple(flatten_i
 M("m-evaluate-rev-oper", SG, """            op = get_reflect_op(self.op)
         else:""", """            op = self.op
         else:""", fire=["C02"])
-M("m-multi-and-merge-op", MU_, "new_marker = mark & marker", "new_marker = mark | marker", fire=["C02", "C15"])
+M("m-multi-and-merge-op", MU_, "new_marker = mark & marker", "new_marker = mark | marker", fire=["C02"])   # soundness, not normal form
 N("m-n-of-ifelse", MU_, """                if marker.is_any():
                     continue
 
